@@ -27,6 +27,54 @@ STRUCT_FIELDS = {
 }
 
 
+def check_closure_before_insert(P, r3):
+    """every insertion into the declared set is the output of the transitive closure; shared by C07-D3 and C02-D4"""
+    gens = [t for t in P.trait_impls.get(GEN_MODELS, []) if t in P.fns]
+    for gid in gens:
+        f = P.fns[gid]
+        ins = [c for c in f.calls if short_path(c.path) == "HashMap::insert" and "StructInfo" in " ".join(c.generics + [c.self_ty or ""])]
+        dn = [c for c in f.calls if short_path(c.best) == "TypeCollector::discover_nested_dependencies"]
+        def strip(o):
+            while o[0] == "proj":
+                o = o[1]
+            return o
+
+        def ident(o):
+            o = strip(o)
+            if o[0] == "call":
+                return ("call", o[1].bb)
+            if o[0] == "arg":
+                return ("arg", o[1])
+            return ("other", str(o)[:40])
+
+        def iterated_collection(key_op):
+            """the collection whose iteration yields the inserted key: key <- [clone] <- next <- into_iter/iter <- collection"""
+            o = strip(f.origin(key_op))
+            if o[0] == "call" and o[1].name in ("clone", "to_string", "to_owned") and o[1].args:
+                o = strip(f.origin(o[1].args[0]))
+            if not (o[0] == "call" and o[1].name == "next" and o[1].args):
+                return None
+            o = strip(f.origin(o[1].args[0]))
+            if not (o[0] == "call" and o[1].name in ("into_iter", "iter", "drain", "keys", "into_keys") and o[1].args):
+                return None
+            return ident(f.origin(o[1].args[0]))
+        for c in ins:
+            doms = [d for d in dn if f.dominates(d.bb, c.bb)]
+            if not doms:
+                r3.bad(V(r3.id, gid, "insert-without-closure", "types are inserted into the declared set without closing over their field types first", c.file, c.line))
+                continue
+            # ... and what is inserted is the *output* of that closure (its `&mut` accumulator), not the seed set it started from
+            src = iterated_collection(c.args[1]) if len(c.args) > 1 else None
+            outs = [ident(f.origin(d.args[-1])) for d in doms if d.args]
+            if src is not None and src in outs:
+                r3.ok("%s: the declared set receives the output of discover_nested_dependencies" % short_path(gid))
+            else:
+                r3.bad(V(r3.id, gid, "insert-not-from-closure", "the names inserted into the declared set are not the accumulator discover_nested_dependencies filled (%s vs %s): nested payload types stay undeclared"
+                         % (src, outs), c.file, c.line))
+        if not ins:
+            r3.bad(V(r3.id, gid, "event-types-not-declared", "%s never inserts the (closed) event payload types into the declared set" % short_path(gid)))
+
+
 def check(ctx):
     P = ctx.P
     S = ctx.S
@@ -63,6 +111,24 @@ def check(ctx):
         for c in f.calls:
             if c.trait in ("std::iter::Iterator", "std::iter::DoubleEndedIterator") and c.name in TRUNC:
                 r1.bad(V(r1.id, fid, "truncated-iteration:%s" % c.name, "the iteration that feeds type harvesting is truncated by .%s(..)" % c.name, c.file, c.line))
+    # the harvested work list only grows: nothing removes names from it before the resolution step has seen every file
+    SHRINK = {"HashSet::retain", "HashSet::remove", "HashSet::clear", "HashSet::drain", "HashSet::take", "HashSet::extract_if",
+              "BTreeSet::retain", "BTreeSet::remove", "BTreeSet::clear", "Vec::retain", "Vec::clear", "Vec::truncate", "Vec::drain"}
+    for fid in sorted(reach):
+        f = P.fns[fid]
+        scope = [f] + [P.fns[k] for k in P.fns if k.startswith(fid + "::{closure")]
+        if "{closure" in fid:
+            continue
+        harvests = [c for g in scope for c in g.calls
+                    if short_path(c.best) in ("CommandAnalyzer::extract_type_names", "CommandAnalyzer::extract_type_names_recursive")]
+        if not harvests:
+            continue
+        # the accumulator is captured by the harvesting closures, so it is identified by its type (a set of names) within this function
+        for g in scope:
+            for c in g.calls:
+                if short_path(c.path) in SHRINK and "String" in " ".join(c.generics[:1] + [c.self_ty or ""]):
+                    r1.bad(V(r1.id, fid, "worklist-shrunk:%s" % short_path(c.path), "names are removed from a name set by %s in the function that harvests type names, before resolution has seen every file" % short_path(c.path), c.file, c.line))
+        r1.ok("%s: the harvested work list is only extended" % short_path(fid))
     for k, what in SEED_FIELDS.items():
         if k in seen:
             r1.ok("extract_type_names(%s) in %s" % (k, seen[k]))
@@ -147,18 +213,10 @@ def check(ctx):
     r6 = Rule("C07-D6-minimality", "D6",
               "the struct map handed to the types renderer originates from collect_used_types, not from the full discovered set; Result keeps only the success type",
               "emitting the discovered set declares unreachable decoy types; keeping error arms declares types that only surface as rejections")
+    check_closure_before_insert(P, r3)
     gens = [t for t in P.trait_impls.get(GEN_MODELS, []) if t in P.fns]
     for gid in gens:
         f = P.fns[gid]
-        ins = [c for c in f.calls if short_path(c.path) == "HashMap::insert" and "StructInfo" in " ".join(c.generics + [c.self_ty or ""])]
-        dn = [c for c in f.calls if short_path(c.best) == "TypeCollector::discover_nested_dependencies"]
-        for c in ins:
-            if any(f.dominates(d.bb, c.bb) for d in dn):
-                r3.ok("%s: insert into the declared set after discover_nested_dependencies" % short_path(gid))
-            else:
-                r3.bad(V(r3.id, gid, "insert-without-closure", "types are inserted into the declared set without closing over their field types first", c.file, c.line))
-        if not ins:
-            r3.bad(V(r3.id, gid, "event-types-not-declared", "%s never inserts the (closed) event payload types into the declared set" % short_path(gid)))
         cu = [c for c in f.calls if short_path(c.best) == "TypeCollector::collect_used_types"]
         if not cu:
             r3.bad(V(r3.id, gid, "no-collect_used_types", "generate_models does not compute the used set"))
